@@ -313,4 +313,3 @@ example : exampleCell.indepAtoms = [0, 4] := by decide +kernel
 
 end Cell
 end Symfc
-
